@@ -28,6 +28,16 @@ CHECKS = {
             "replayed through monotone port maps on ONE live Port object, an operand sweep (thorough: every operand "
             "1..65535 for lt/gt) and random tuples are added, and TLC (Trace_C08) judges each recorded step.",
             "7 (C08)"),
+    "C13": ("model_checking",
+            "TLA+ spec (AddrSem, AddrText, AddrObj) model-checked by TLC; TLC-enumerated operand pairs concretised and "
+            "queried on the real classes; answers validated by TLC at W=32 from the input tokens",
+            "TLC proves on the small instance that SubW (bit algebra) equals set containment for all 4096/65536 wildcard "
+            "pairs and, for all 615 440 operand pairs incl. groups of 0..2 members, that the symbolic exact-containment "
+            "operator equals the enumerated one and that the documented list relation is exact without groups and sound "
+            "with them; every generated pair is embedded through address windows, spelled natively and foreign on both "
+            "platforms and asked through subnet_of / in-member / in-group, with in-place member edits between repeated "
+            "queries; TLC (Trace_C13) parses the operand meaning from the input tokens and judges every answer.",
+            "7 (C13)"),
 }
 
 NOT_YET = {
